@@ -107,22 +107,67 @@ class Report(object):
 
 
 # ---------------------------------------------------------------- parallel
+WORKER_AS_LIMIT = int(os.environ.get("AMC_WORKER_AS_GB", "8")) << 30
+
+
+def _limit_memory():
+    """an operation that tries to allocate without bound must fail with MemoryError inside the worker
+    (where the checks see it) instead of getting the worker killed by the kernel"""
+    try:
+        import resource
+        soft, hard = resource.getrlimit(resource.RLIMIT_AS)
+        lim = WORKER_AS_LIMIT if hard == resource.RLIM_INFINITY else min(WORKER_AS_LIMIT, hard)
+        resource.setrlimit(resource.RLIMIT_AS, (lim, hard))
+    except Exception:
+        pass
+
+
 def _init_worker():
     signal.signal(signal.SIGINT, signal.SIG_IGN)
+    _limit_memory()
     quiet_amoco()
+
+
+class WorkerDied(RuntimeError):
+    pass
 
 
 def pmap(func, items, nproc=None, chunksize=1, maxtasks=None, fresh=False):
     """Ordered parallel map over picklable items with fork workers.
-    Deterministic: result order == item order."""
+    Deterministic: result order == item order. A worker that dies (killed, segfault) raises
+    WorkerDied instead of hanging the pool."""
     items = list(items)
     nproc = min(nproc or NPROC, max(1, len(items)))
     if nproc <= 1 and not fresh:
         _init_worker_noint()
         return [func(x) for x in items]
     ctx = mp.get_context("fork")
-    with ctx.Pool(nproc, initializer=_init_worker, maxtasksperchild=maxtasks) as pool:
-        return pool.map(func, items, chunksize)
+    if maxtasks is not None:
+        # (ProcessPoolExecutor has no per-task recycling with fork: keep multiprocessing.Pool, watched)
+        with ctx.Pool(nproc, initializer=_init_worker, maxtasksperchild=maxtasks) as pool:
+            return _watched_map(pool, func, items, chunksize)
+    from concurrent.futures import ProcessPoolExecutor
+    from concurrent.futures.process import BrokenProcessPool
+    try:
+        with ProcessPoolExecutor(nproc, mp_context=ctx, initializer=_init_worker) as ex:
+            return list(ex.map(func, items, chunksize=chunksize))
+    except BrokenProcessPool as e:
+        raise WorkerDied("a worker process died while running %s (%d items): %r" % (getattr(func, "__name__", func), len(items), e))
+
+
+def _watched_map(pool, func, items, chunksize):
+    """pool.map that notices dead workers (multiprocessing.Pool would wait forever)"""
+    res = pool.map_async(func, items, chunksize)
+    pids = None
+    while True:
+        try:
+            return res.get(timeout=5)
+        except mp.TimeoutError:
+            procs = list(getattr(pool, "_pool", []))
+            for p in procs:
+                if p.exitcode not in (None, 0):
+                    pool.terminate()
+                    raise WorkerDied("worker pid %s exited with code %s while running %s" % (p.pid, p.exitcode, getattr(func, "__name__", func)))
 
 
 def _init_worker_noint():
